@@ -14,8 +14,8 @@
        LCE                       -> a line comment ended by the end of the file (last choice of gap n only)
        BC BCM BCE DOC            block comment / with multi-byte text / empty `/**/` / doc-style multi-line
        BOM                       a UTF-8 byte order mark (first choice of gap 0 only)
-   Comments are numbered 1.. in file order and carry their number in their text, so every comment
-   of a file is distinct.  Trivia never changes the token sequence: every replaced gap is non-empty,
+   Comments carry a number (10 * gap + position in the gap) in their text, so every comment of a
+   file is distinct and the numbers increase through the file.  Trivia never changes the token sequence: every replaced gap is non-empty,
    which also keeps adjacent word tokens apart, and a line comment always brings its own line end.
 
    By construction   source = Concat(Text(item) : item \in Items)   -- the oracle of C11:
@@ -25,7 +25,7 @@
 
    Characters that TLA+ strings cannot hold are written <U+XXXX> in Text and replaced by the
    driver (a homomorphism, so Concat commutes with it); ByteLen counts the real UTF-8 bytes.      *)
-EXTENDS Naturals, Sequences, FiniteSets, TLC
+EXTENDS Naturals, Integers, Sequences, FiniteSets, TLC
 
 WsKinds      == {"SP", "TAB", "LF", "CRLF", "CR", "FF", "VT"}
 CommentKinds == {"LC", "BC", "BCM", "BCE", "DOC"}
@@ -67,9 +67,9 @@ ByteLen(sk, it) ==
     [] it[1] \in WsKinds -> 1
     [] it[1] = "LC"   -> 4 + Len(Num(it[2]))
     [] it[1] = "BC"   -> 7 + Len(Num(it[2]))
-    [] it[1] = "BCM"  -> 8 + Len(Num(it[2])) + 2 + 3 + 4 + 3
+    [] it[1] = "BCM"  -> 5 + Len(Num(it[2])) + (2 + 3 + 4) + 3
     [] it[1] = "BCE"  -> 4
-    [] it[1] = "DOC"  -> 5 + Len(Num(it[2])) + 18
+    [] it[1] = "DOC"  -> 5 + Len(Num(it[2])) + 16
 
 (* number of line feeds in an item: the file has 1 + sum of these lines *)
 LFs(it) == CASE it[1] \in {"LF", "CRLF"} -> 1 [] it[1] = "DOC" -> 2 [] OTHER -> 0
@@ -81,33 +81,53 @@ NGaps(sk) == Len(sk.toks)          \* gaps are 0..NGaps
 RECURSIVE FlatExpand(_)
 FlatExpand(cs) == IF cs = <<>> THEN <<>> ELSE Expand(Head(cs)) \o FlatExpand(Tail(cs))
 
-GapKinds(sk, layout, g) ==
-  LET at == {j \in DOMAIN layout : layout[j][1] = g}
-  IN IF at = {} THEN sk.gaps[g + 1] ELSE FlatExpand(layout[CHOOSE j \in at : TRUE][2])
+(* kinds of one gap -> items; the k-th item of gap g, when a comment, gets the number 10 * g + k,
+   so comment numbers are distinct and increase through the file *)
+Numbered(kinds, g) == [k \in DOMAIN kinds |-> <<kinds[k], IF kinds[k] \in CommentKinds THEN 10 * g + k ELSE 0>>]
 
-(* kinds of one gap -> items, numbering comments from cnt + 1; returns <<items, new cnt>> *)
-RECURSIVE Number(_, _, _)
-Number(kinds, cnt, acc) ==
-  IF kinds = <<>> THEN <<acc, cnt>>
-  ELSE IF Head(kinds) \in CommentKinds
-         THEN Number(Tail(kinds), cnt + 1, Append(acc, <<Head(kinds), cnt + 1>>))
-         ELSE Number(Tail(kinds), cnt, Append(acc, <<Head(kinds), 0>>))
+Replaced(layout, g) == {j \in DOMAIN layout : layout[j][1] = g}
+GapItems(sk, layout, g) ==
+  LET at == Replaced(layout, g)
+  IN Numbered(IF at = {} THEN sk.gaps[g + 1] ELSE FlatExpand(layout[CHOOSE j \in at : TRUE][2]), g)
 
-RECURSIVE BuildFrom(_, _, _, _, _)
-BuildFrom(sk, layout, g, cnt, acc) ==
-  LET r == Number(GapKinds(sk, layout, g), cnt, <<>>)
-  IN IF g = NGaps(sk) THEN acc \o r[1]
-     ELSE BuildFrom(sk, layout, g + 1, r[2], (acc \o r[1]) \o << <<"TOK", g + 1>> >>)
-Items(sk, layout) == BuildFrom(sk, layout, 0, 0, <<>>)
+(* the file:  gap 0, token 1, gap 1, ..., token n, gap n  (divide and conquer keeps it n log n) *)
+RECURSIVE Flat(_, _, _, _)
+Flat(sk, layout, lo, hi) ==
+  IF lo = hi THEN GapItems(sk, layout, lo) \o (IF lo < NGaps(sk) THEN << <<"TOK", lo + 1>> >> ELSE <<>>)
+  ELSE LET mid == (lo + hi) \div 2 IN Flat(sk, layout, lo, mid) \o Flat(sk, layout, mid + 1, hi)
+Items(sk, layout) == Flat(sk, layout, 0, NGaps(sk))
 
-RECURSIVE ConcatFrom(_, _, _, _), SumBytes(_, _, _, _), SumLFs(_, _, _)
-ConcatFrom(sk, its, j, acc) == IF j > Len(its) THEN acc ELSE ConcatFrom(sk, its, j + 1, acc \o Text(sk, its[j]))
-Concat(sk, its) == ConcatFrom(sk, its, 1, "")
-SumBytes(sk, its, j, acc) == IF j > Len(its) THEN acc ELSE SumBytes(sk, its, j + 1, acc + ByteLen(sk, its[j]))
-SumLFs(its, j, acc) == IF j > Len(its) THEN acc ELSE SumLFs(its, j + 1, acc + LFs(its[j]))
+RECURSIVE ConcatRange(_, _, _, _)
+ConcatRange(sk, its, lo, hi) ==
+  IF lo > hi THEN "" ELSE IF lo = hi THEN Text(sk, its[lo])
+  ELSE LET mid == (lo + hi) \div 2 IN ConcatRange(sk, its, lo, mid) \o ConcatRange(sk, its, mid + 1, hi)
+Concat(sk, its) == ConcatRange(sk, its, 1, Len(its))
 
-(* the expected observable of (2): token and comment items in order *)
-Reported(its) == SelectSeq(its, LAMBDA it : IsToken(it) \/ IsComment(it))
+RECURSIVE SumOver(_, _, _)
+SumOver(its, F(_), j) == IF j > Len(its) THEN 0 ELSE F(its[j]) + SumOver(its, F, j + 1)
+Bytes(sk, its) == SumOver(its, LAMBDA it : ByteLen(sk, it), 1)
+LineFeeds(its) == SumOver(its, LFs, 1)
+NComments(its) == SumOver(its, LAMBDA it : IF IsComment(it) THEN 1 ELSE 0, 1)
+
+(* size of the skeleton's own layout: <<bytes, line feeds>> *)
+RECURSIVE BaseFrom(_, _, _)
+BaseFrom(sk, g, acc) ==
+  LET its == GapItems(sk, <<>>, g)
+      a2  == <<acc[1] + Bytes(sk, its) + (IF g < NGaps(sk) THEN Len(sk.toks[g + 1][1]) ELSE 0), acc[2] + LineFeeds(its)>>
+  IN IF g = NGaps(sk) THEN a2 ELSE BaseFrom(sk, g + 1, a2)
+Base(sk) == BaseFrom(sk, 0, <<0, 0>>)
+
+(* sizes of a layout relative to the skeleton's: sum over the replaced gaps of (new - default) *)
+RECURSIVE DeltaFrom(_, _, _, _)
+DeltaFrom(sk, layout, j, acc) ==
+  IF j > Len(layout) THEN acc
+  ELSE LET g   == layout[j][1]
+           new == GapItems(sk, layout, g)
+           old == GapItems(sk, <<>>, g)
+       IN DeltaFrom(sk, layout, j + 1,
+                    <<(acc[1] + Bytes(sk, new)) - Bytes(sk, old), (acc[2] + LineFeeds(new)) - LineFeeds(old), acc[3] + NComments(new)>>)
+(* <<bytes, line feeds, comments>> of the whole file, given Base(sk) *)
+Sizes(sk, base, layout) == DeltaFrom(sk, layout, 1, <<base[1], base[2], 0>>)
 
 -----------------------------------------------------------------------------
 (* GAP CLASSES.  ctx = the bracket context between the two neighbours of the gap: a stack over
@@ -163,4 +183,6 @@ Reps(cls) ==
 ChoiceOK(sk, g, pos, c) ==
   /\ (c = "BOM" => g = 0 /\ pos = 1)
   /\ (c = "LCE" => g = NGaps(sk))
+  \* a comment directly after the token `/` (type URLs) would fuse with it into a comment opener
+  /\ ((g > 0 /\ pos = 1 /\ sk.toks[IF g > 0 THEN g ELSE 1][1] = "/") => c \in WsKinds \cup {"BLANK"})
 =============================================================================
